@@ -147,7 +147,8 @@ def count_structs(x, msgspec):
 # ----------------------------------------------------------------------------
 class Gen:
   NAMES = ["int", "str", "x", "T", "builtins.int", "typing.List", "foo.Bar", "a.b.C", "K", "V", "\u00e9.\u00df",
-           "_T0", "NoneType", "tuple", "list", "dict", "m.A", "m.B", "typing.Any", "object", "\U0001F600"]
+           "_T0", "NoneType", "tuple", "list", "dict", "m.A", "m.B", "typing.Any", "object", "\U0001F600",
+           "m.A.Inner", "foo.bar.C", "foo.bar.C.D", "pkg.mod.K", "pkg", "foo", "foo.bar", "pkg.mod"]
 
   def __init__(self, rng, real):
     self.rng, self.R, self.p = rng, real, real.pytd
@@ -492,6 +493,50 @@ def collect_class_types(R, ast):
   return v.class_type_nodes
 
 
+def late_names(R, node):
+  """names of all LateTypes of a tree, sorted"""
+  out = []
+  p = R.pytd
+
+  def go(x):
+    if isinstance(x, p.LateType):
+      out.append(x.name)
+    elif isinstance(x, R.msgspec.Struct):
+      for f in x.__struct_fields__:
+        if f != "_name2item":
+          go(getattr(x, f))
+    elif isinstance(x, (tuple, list)):
+      for y in x:
+        go(y)
+  go(node)
+  return sorted(out)
+
+
+def undo_alias_spec(R, ast):
+  """Independent statement of what UndoModuleAliasesVisitor does to the LateType names of ONE unit: the longest
+  proper dotted prefix that is a module alias *of this unit* is replaced by the aliased module's name; nothing
+  else changes (in particular no alias of another unit is ever used)."""
+  p = R.pytd
+  aliases = {}
+  for a in ast.aliases:
+    if isinstance(a.type, p.Module):
+      n = a.name
+      if n.startswith(ast.name + "."):
+        n = n[len(ast.name) + 1:]
+      aliases[n] = a.type.module_name
+  out = []
+  for name in late_names(R, ast):
+    parts = name.split(".")
+    new = name
+    for i in range(len(parts) - 1, 0, -1):
+      pre = ".".join(parts[:i])
+      if pre in aliases:
+        new = aliases[pre] + "." + ".".join(parts[i:])
+        break
+    out.append(new)
+  return sorted(out)
+
+
 def ast_oracle(R, ast):
   """DecodeAst(Serialize(x)).ast == CanonicalOrdering(x) (by value), dependencies as collected, all cls
   pointers cleared, Serialize of the decoded AST byte-identical, canonical ordering idempotent."""
@@ -500,6 +545,7 @@ def ast_oracle(R, ast):
     pre = ast
     if pre.name.endswith(".__init__"):
       pre = pre.Visit(R.visitors.RenameModuleVisitor(pre.name, pre.name.rsplit(".__init__", 1)[0]))
+    pre0 = pre
     pre = pre.Visit(su.UndoModuleAliasesVisitor())
     deps = R.visitors.CollectDependencies()
     pre.Visit(deps)
@@ -511,6 +557,9 @@ def ast_oracle(R, ast):
     d = pu.DecodeAst(b)
   except Exception as e:  # pylint: disable=broad-except
     return "Serialize/DecodeAst raised %s: %s" % (type(e).__name__, str(e)[:200])
+  if late_names(R, d.ast) != undo_alias_spec(R, ast if not ast.name.endswith(".__init__") else pre0):
+    return ("LateType names of the decoded AST are not the original's with this unit's own module aliases undone "
+            "(longest aliased prefix -> module name)")
   if d.ast.name != canon.name or not R.pytd_utils.ASTeq(d.ast, canon):
     return "decoded AST != CanonicalOrdering(original) (ASTeq)"
   if val_noptr(R, d.ast) != val_noptr(R, canon):
@@ -683,6 +732,30 @@ def build_asts(R, rng, tier, gen, res, crashes):
         crash("parser.parse_string", "pytype/stubs/builtins/" + s, e)
       else:
         res.cov.setdefault("stub_parse_errors", []).append("%s: %s" % (s, str(e)[:100]))
+  # export-dialect units with module aliases and LateTypes at every depth below an aliased prefix (hand-built: the
+  # sandbox cannot import third modules, so pytype itself never emits these here)
+  try:
+    p = R.pytd
+    def lt(n):
+      return p.LateType(n)
+    def unit(name, aliases, late):
+      return p.TypeDeclUnit(
+          name=name,
+          constants=tuple(p.Constant("%s.k%d" % (name, i), lt(n), None) for i, n in enumerate(late)),
+          type_params=(), classes=(), functions=(),
+          aliases=tuple(p.Alias("%s.%s" % (name, a), p.Module(a, m)) for a, m in aliases))
+    asts.append(("alias-unit:aliased", unit("uses_alias", [("shapes", "gfx.primitives"), ("gfx.colors", "gfx.colors"),
+                                                             ("gfx", "gfx")],
+                                             ["shapes.Square", "shapes.Outer.Inner", "shapes.Outer.Inner.Deep",
+                                              "gfx.colors.Palette", "gfx.colors.Palette.Entry", "gfx.text.Font",
+                                              "gfx.Font", "other.Thing", "plain"]), None))
+    # the same names in a unit WITHOUT aliases: nothing may be rewritten (no alias of another unit is ever used)
+    asts.append(("alias-unit:plain", unit("no_alias", [], ["shapes.Square", "shapes.Outer.Inner", "gfx.colors.Palette.Entry",
+                                                           "gfx.Font"]), None))
+    asts.append(("alias-unit:aliased-again", unit("uses_alias2", [("shapes", "other.shapes")],
+                                                   ["shapes.Square", "shapes.Outer.Inner"]), None))
+  except Exception as e:  # pylint: disable=broad-except
+    crash("constructing the alias units", "alias-unit", e)
   for i in range(6 if tier == "quick" else 60):
     try:
       asts.append(("generated-unit:%d" % i, gen.unit(2, size=3, name="gen%d" % i), None))
